@@ -335,6 +335,13 @@ def has_node(layout, heads):
     return any(node[0] in heads for _, node in G.nodes(layout))
 
 
+def top_node(layout):
+    node = layout
+    while node[0] == 'par':
+        node = node[3]
+    return node[0]
+
+
 def top_optionlike(layout):
     node = layout
     while node[0] == 'par':
@@ -919,6 +926,13 @@ def signature(prop, c, impl, verdict):
     if isinstance(ax, int) and ax < 0 and types and negrec0(ax, *types):
         return 'negaxis-zero-through-record'
     rax = res_axis(types[0], ax) if (types and isinstance(ax, int)) else ax
+    if tg.get('rec_untrimmed') and (f.endswith(':none') or tg.get('axis') == 'none'):
+        return 'completely-flatten-record-untrimmed-fields'
+    if verdict.startswith('viol closure') and impl.startswith('ok'):
+        nchar = impl.count('(par char none (np uint8 (0) ())') + impl.count('(par byte none (np uint8 (0) ())')
+        nstr = impl.count('(par string none') + impl.count('(par bytestring none')
+        if nchar > 0 and nstr < impl.count('(par char none') + impl.count('(par byte none'):
+            return 'string-empty-selection'
     if prop == 'C03':
         if tg.get('axis') == 'none':
             if tg.get('reducer') in ('argmin', 'argmax') and tg.get('empty'):
@@ -926,9 +940,9 @@ def signature(prop, c, impl, verdict):
             return None
         import props.c03 as c03
         return c03.signature(c, impl, verdict)
-    if tg.get('rec_untrimmed') and (f.endswith(':none') or tg.get('axis') == 'none'):
-        return 'completely-flatten-record-untrimmed-fields'
     if prop == 'C05':
+        if f == 'num' and rax == 0 and lays and top_node(lays[0]) == 'rec':
+            return 'num-axis0-recordarray-returns-record'
         if f in ('unflatten', 'rt_unflatten') and tg.get('lead0'):
             return 'unflatten-inner-leading-zero-count'
         if f == 'unflatten' and tg.get('negcount'):
